@@ -61,6 +61,22 @@ def run(res, tier, replay):
             pat = rng.choice([None, "*.txt", "m1*", "*_a*", "M0*", "*"])
             sel = [m for m in members if pat is None or fnmatch.fnmatchcase(m.name.decode().lower(), pat.lower())]
             fopt = ["-F", pat] if pat else []
+            if isset and len(paths) >= 2:
+                # several parts of one set named on the command line (cabextract *.cab): every member is listed / tested / piped once,
+                # quiet or not - a part already joined to an earlier argument's set is skipped
+                argsets = [paths, [paths[-1], paths[0]]] + ([[paths[1], paths[-1]]] if len(paths) > 2 else [])
+                for al in argsets:
+                    al = [os.path.basename(x) if bare else x for x in al]
+                    d2 = "cabinet files: %s\narguments: %s  pattern: %s" % ([os.path.basename(x) for x in paths], al, pat)
+                    r = subprocess.run([exe, "-p", "-q"] + fopt + al, capture_output=True, env=env, timeout=120, cwd=work); nruns += 1
+                    if r.stdout != b"".join(m.data for m in sel) or r.returncode != 0: bad("-p -q %s wrote %d bytes, expected %d (exit %d)" % (" ".join(os.path.basename(x) for x in al), len(r.stdout), sum(len(m.data) for m in sel), r.returncode), d2, "c17:multi-pipe")
+                    for q in ([], ["-q"]):
+                        r = subprocess.run([exe, "-l"] + q + fopt + al, capture_output=True, env=env, timeout=60, cwd=work); nruns += 1
+                        rows = re.findall(r"^\s*(\d+) \| (\d\d)\.(\d\d)\.(\d{4}) (\d\d):(\d\d):(\d\d) \| (.*)$", r.stdout.decode("latin1"), flags=re.M)
+                        if [x[7] for x in rows] != [m.name.decode() for m in sel] or r.returncode != 0: bad("-l %s %s lists %d members, expected %d (exit %d)" % (" ".join(q), " ".join(os.path.basename(x) for x in al), len(rows), len(sel), r.returncode), d2, "c17:multi-list")
+                        r = subprocess.run([exe, "-t"] + q + fopt + al, capture_output=True, env=env, timeout=120, cwd=work); nruns += 1
+                        got = re.findall(r"^  (\S+)  OK\s+([0-9a-f]{32})$", r.stdout.decode("latin1"), flags=re.M)
+                        if [g[0] for g in got] != [m.name.decode() for m in sel] or r.returncode != 0: bad("-t %s %s reports %d members, expected %d (exit %d)" % (" ".join(q), " ".join(os.path.basename(x) for x in al), len(got), len(sel), r.returncode), d2, "c17:multi-test")
             for start_path in (paths if isset else paths[:1]):
                 if isset and start_path != paths[0] and rng.random() < 0.5 and tier == "quick": continue
                 start = os.path.basename(start_path) if bare else start_path
